@@ -37,6 +37,16 @@ PROBES = [
     ("c07_delete_before_scan_done", "C07", "counter/src/lib.rs",
      "                        let file = fs::File::open(&path).unwrap();\n                        let buff = BufReader::new(file);",
      "                        let file = fs::File::open(&path).unwrap();\n                        let buff = BufReader::with_capacity(64, file);\n                        if delete && chunk > 0 {\n                            fs::write(&path, b\"\").unwrap();\n                        }"),
+    # liveness: the outer loop ends only on a chunk pass that read nothing; counting
+    # attempts instead of records makes every pass look productive
+    ("c07_liveness_counts_attempts", "C07", "counter/src/lib.rs",
+     "                        let record = { records_arc_clone.lock().unwrap().next() };\n                        if let Some(record) = record {\n                            pbar.inc(1);\n                            total_records_clone.fetch_add(1, Ordering::Acquire);",
+     "                        let record = { records_arc_clone.lock().unwrap().next() };\n                        total_records_clone.fetch_add(1, Ordering::Acquire);\n                        if let Some(record) = record {\n                            pbar.inc(1);"),
+    # a real (scc) lock held across a scheduling point: blocks the one simulator
+    # thread; the worker watchdog turns it into a stuck-run report
+    ("c07_guard_held_across_map_op", "C07", "counter/src/lib.rs",
+     "                                    counts_table_arc_clone\n                                        .get_unchecked((min_mer % self.n_parts) as usize)\n                                        .entry(min_mer)\n                                        .and_modify(|v| *v += 1)\n                                        .or_insert(1);",
+     "                                    let m = counts_table_arc_clone\n                                        .get_unchecked((min_mer % self.n_parts) as usize);\n                                    match m.get(&min_mer) {\n                                        Some(mut e) => {\n                                            let _ = m.len();\n                                            *e.get_mut() += 1;\n                                        }\n                                        None => {\n                                            let _ = m.insert(min_mer, 1);\n                                        }\n                                    }"),
     ("c08_bin_by_ceil", "C08", "coverage/src/lib.rs",
      "(count as f64 / self.bin_size as f64).floor() as usize",
      "(count as f64 / self.bin_size as f64).ceil() as usize"),
